@@ -154,7 +154,7 @@ impl Sub<u64> for ClockTime {
 	fn sub(self, ticks: u64) -> Self::Output {
 		Self {
 			clock: self.clock,
-			ticks: self.ticks - ticks,
+			ticks: self.ticks.saturating_sub(ticks),
 			fraction: self.fraction,
 		}
 	}
@@ -162,7 +162,7 @@ impl Sub<u64> for ClockTime {
 
 impl SubAssign<u64> for ClockTime {
 	fn sub_assign(&mut self, ticks: u64) {
-		self.ticks -= ticks;
+		self.ticks = self.ticks.saturating_sub(ticks);
 	}
 }
 
